@@ -46,7 +46,7 @@ CODES = [None, 2, -12, -11, -10, -1, 0, 1, 10, 11, 12]
 EPS = Fr(1, 4096)
 
 HEADER = """From Coq Require Import ZArith QArith Qabs List Bool String.
-From QV Require Import C05.Model.
+From QV Require Import C05.Model C05.Eig.
 Import ListNotations.
 Open Scope Q_scope.
 Definition mode (c : Z) : cmode := match cmode_of_code c with Some m => m | None => Abs end.
@@ -75,6 +75,9 @@ Definition chk_g k mc c mb rn s (raised : bool) vals f fex err eex : bool :=
   negb raised && obs_ok k (g_trim (mode mc) c mb rn s) vals f fex err eex.
 Definition chk_e k mc c mb (rv : pyval) s vals f fex err eex : bool :=
   chk_n k mc c mb (parse_renorm (mode mc) rv) s vals f fex err eex.
+(* static truncation in the SVD-via-eig drivers: values in the ORDER the driver returns them *)
+Definition chk_eig (s : list Q) (mb : Z) (descending : bool) (vals : list Q) : bool :=
+  ql_eqb (eig_shortcut_svals (rev s) mb descending) vals.
 Definition chk_rn k (s : list Q) (n rn : Z) (f : Q) (fex : bool) : bool :=
   let '(p, num, den) := n_renorm s n rn in close k fex (Qpower f p) (num / den).
 """
@@ -379,6 +382,8 @@ def trunc_stream(ctx):
                     # (E) end to end through array_split on P diag(s) Q^T
                     if rng.random() < ctx.n(0.4, 1.0):
                         e2e_case(ctx, D, add, s, mode, cutoff, cq, mb, rv, rn, desc)
+    # (S) static truncation (max_bond only, cutoff <= 0, no renorm, no info) through the one-step SVD-via-eig drivers
+    static_eig_stream(ctx, D, add)
     # (R) renorm factor kernel
     for s in spectra(ctx)[: ctx.n(24, 60)]:
         if s[0] == 0 or len(s) < 2:
@@ -407,6 +412,76 @@ def trunc_stream(ctx):
         if c in info:
             ctx.sample(info[c])
     ctx.extra["trunc_cases"] = len(cases)
+
+
+def static_eig_stream(ctx, D, add):
+    """`array_split(x, 'svd:eig', max_bond=k, cutoff=0.0|None)` without info / renorm takes the one-step driver
+    `_svd_via_eig_numba(max_bond=k, descending=False)`: both Gram branches (x^H x for tall, x x^H for wide / most
+    square requests), every absorb form; plus the generic `svd_via_eig` called directly.  Values are compared in the
+    order returned with the slice model (Coq), factors with the best rank-k approximation P diag(s[:k]) Q^T."""
+    rng = ctx.rng
+    specs = [s for s in spectra(ctx) if len(s) >= 2 and s[0] > 0]
+    for s in specs[: ctx.n(22, 70)]:
+        d = len(s)
+        for mb in range(1, d + 1):
+            for kind in ("tall", "wide", "square"):
+                cplx = rng.random() < 0.3
+                x = exact_matrix(rng, s, kind, cplx=cplx)
+                sk = [float(v) for v in s[:mb]] + [0.0] * (d - mb)
+                # the same P, Q: rebuild the best rank-mb approximation by zeroing the discarded values exactly
+                try:
+                    U0, s0, V0 = np.linalg.svd(x, full_matrices=False)
+                except Exception:
+                    continue
+                if sorted((fr(v) for v in s0), reverse=True) != list(s):
+                    ctx.bump("static_eig_svd_not_exact")
+                    continue
+                best = (U0[:, :mb] * s0[:mb]) @ V0[:mb, :] if not (mb < d and s[mb - 1] == s[mb]) else None
+                cutoff = rng.choice([0.0, None])
+                for a in (None, "s", "both", "left", "right", "lfactor", "rorthog"):
+                    desc = {"s": [str(v) for v in s], "max_bond": mb, "shape": list(x.shape), "complex": cplx, "absorb": a,
+                            "cutoff": cutoff, "method": "svd:eig", "x": [[str(complex(v)) if cplx else float(v) for v in row] for row in x.tolist()]}
+                    ctx.count(("S", tuple(s), mb, kind, str(a), cplx), mb < d)
+                    ctx.bump("static_eig")
+                    D.parse_split_opts.cache_clear()
+                    try:
+                        L, sv, R = D.array_split(x, method="svd:eig", absorb=a, max_bond=mb, cutoff=cutoff)
+                    except Exception as e:
+                        ctx.violation("array_split:svd:eig:static_max_bond:raised", f"raised {type(e).__name__}: {e}", desc)
+                        continue
+                    if sv is not None:
+                        got = [fr(v) for v in np.asarray(sv)]
+                        add(f"chk_eig {qlist(s)} {zlit(mb)} false {qlist(got)}",
+                            {**{k: v for k, v in desc.items() if k != "x"}, "path": "svd:eig one-step", "impl_values": [float(v) for v in got]})
+                        if sorted(got, reverse=True) != list(s[: min(mb, d)]):
+                            ctx.violation("array_split:svd:eig:static_max_bond:values",
+                                          f"max_bond={mb} kept singular values {[float(v) for v in got]}, the {mb} largest are {[float(v) for v in s[:mb]]}",
+                                          {**desc, "got": [float(v) for v in got]})
+                    if L is not None and R is not None and best is not None:
+                        rec = (np.asarray(L) * np.asarray(sv)[None, :]) @ np.asarray(R) if sv is not None else np.asarray(L) @ np.asarray(R)
+                        err = float(np.linalg.norm(rec - best))
+                        if rec.shape != best.shape or not err <= 1e-9 * max(1.0, float(s[0])):
+                            ctx.violation("array_split:svd:eig:static_max_bond:not_best_rank_k",
+                                          f"max_bond={mb}: L s R differs from the best rank-{mb} approximation by {err:.3g}",
+                                          {**desc, "distance": err})
+                    for F, nm in ((L, "left"), (R, "right")):
+                        if F is not None and (np.asarray(F).shape[1 if nm == "left" else 0] != min(mb, d)):
+                            ctx.violation("array_split:svd:eig:static_max_bond:bond", f"{nm} factor has bond {np.asarray(F).shape}, max_bond={mb}", desc)
+                # generic (non-numba) driver, both orders
+                for desc_flag in (False, True):
+                    try:
+                        _, gs, _ = D.svd_via_eig(x, absorb=None, max_bond=mb, descending=desc_flag)
+                    except Exception as e:
+                        ctx.violation("svd_via_eig:static_max_bond:raised", f"raised {type(e).__name__}: {e}", {"s": [str(v) for v in s], "max_bond": mb})
+                        continue
+                    got = [fr(v) for v in np.asarray(gs)]
+                    ctx.bump("static_eig_generic")
+                    add(f"chk_eig {qlist(s)} {zlit(mb)} {blit(desc_flag)} {qlist(got)}",
+                        {"path": "svd_via_eig generic", "s": [str(v) for v in s], "max_bond": mb, "descending": desc_flag,
+                         "impl_values": [float(v) for v in got]})
+                    if sorted(got, reverse=True) != list(s[: min(mb, d)]):
+                        ctx.violation("svd_via_eig:static_max_bond:values", f"generic svd_via_eig(max_bond={mb}) kept {[float(v) for v in got]}",
+                                      {"s": [str(v) for v in s], "max_bond": mb, "descending": desc_flag, "shape": list(x.shape)})
 
 
 def e2e_case(ctx, D, add, s, mode, cutoff, cq, mb, rv, rn, desc):
@@ -959,6 +1034,7 @@ def oracle_stream(ctx):
                                 ctx.violation(key, f"{side} factor has left_inds set (flagged isometric) but ||M^H M - 1|| = {dfc:.3g}",
                                               {**desc, "side": side, "defect": dfc})
         truncated_oracle(ctx, D, nprng)
+        static_rank_oracle(ctx, D, nprng)
         special_inputs(ctx, D, nprng)
     ctx.extra["oracle_splits"] = stats
 
@@ -1043,6 +1119,59 @@ def truncated_oracle(ctx, D, nprng):
                 actual = float(np.linalg.norm((np.asarray(L) * np.asarray(sv)) @ np.asarray(R) - x))
                 if abs(float(info["error"]) - actual) > 1e-7:
                     ctx.violation(f"array_split:{method}:reported_error", f"info['error'] = {float(info['error'])} vs actual {actual}", desc)
+
+
+def static_rank_oracle(ctx, D, nprng):
+    """max_bond-only truncation (cutoff exactly 0 / None, no info, no renorm: the one-step drivers) must be the
+    best rank-k approximation, for tall / wide / square inputs, every dtype and two-sided form (tests, tolerance)"""
+    import quimb.tensor as qtn
+
+    for method in ("svd", "svd:eig", "svd:rand"):
+        for dt in DTYPES:
+            cplx = "complex" in dt
+            single = dt in ("float32", "complex64")
+            for m, n in ((5, 9), (9, 5), (6, 6)):
+                d = min(m, n)
+                sig = np.array([2.0 ** (-i) for i in range(d)])
+
+                def iso(r, c):
+                    A = nprng.normal(size=(r, c)) + (1j * nprng.normal(size=(r, c)) if cplx else 0)
+                    return np.linalg.qr(A)[0]
+
+                x = ((iso(m, d) * sig) @ iso(n, d).conj().T).astype(dt)
+                nrm = float(np.linalg.norm(x))
+                for k in (1, 3):
+                    optimal = float(np.sqrt(np.sum(sig[k:] ** 2)))
+                    for a in (None, "both", "left", "right"):
+                        cutoff = (0.0, None)[(k + m) % 2]
+                        desc = {"method": method, "dtype": dt, "shape": [m, n], "absorb": a, "max_bond": k, "cutoff": cutoff,
+                                "spectrum": "2^-i", "info": "not passed", "via": "array_split"}
+                        ctx.count(("OS", method, dt, m, n, k, str(a)), True)
+                        ctx.bump("oracle_static_rank")
+                        D.parse_split_opts.cache_clear()
+                        try:
+                            if a == "both" and m <= n:
+                                # through Tensor.split: left dims (m,), right dims factorised
+                                T = qtn.Tensor(x.reshape((m, 3, n // 3)), inds=("a", "b", "c"))
+                                tl, tr = T.split(["a"], method=method, absorb=a, max_bond=k, cutoff=cutoff, get="tensors")
+                                L, sv, R = np.asarray(tl.data), None, np.asarray(tr.data).reshape(-1, n)
+                                desc["via"] = "Tensor.split"
+                            else:
+                                L, sv, R = D.array_split(x, method=method, absorb=a, max_bond=k, cutoff=cutoff)
+                        except Exception as e:
+                            ctx.violation(crash_key(method, dt, e) if type(e).__name__ not in CLEAN_REJECTIONS else f"array_split:{method}:rejects_valid_input",
+                                          f"static truncation raised {type(e).__name__}: {str(e)[:150]}", desc)
+                            continue
+                        L, R = np.asarray(L), np.asarray(R)
+                        if L.shape[1] > k:
+                            ctx.violation(f"array_split:{method}:max_bond_exceeded", f"bond {L.shape[1]} > max_bond {k}", desc)
+                        rec = (L * np.asarray(sv)[None, :]) @ R if sv is not None else L @ R
+                        actual = float(np.linalg.norm(rec - x))
+                        slack = 2.0 * optimal + 1e-3 * nrm if method == "svd:rand" else (2e-2 if single else 1e-6) * nrm
+                        if actual > optimal + slack:
+                            ctx.violation(f"array_split:{method}:static_max_bond:not_best_rank_k",
+                                          f"rank-{L.shape[1]} result has error {actual:.4g}, the best rank-{k} approximation has {optimal:.4g}",
+                                          {**desc, "actual_error": actual, "optimal_error": optimal})
 
 
 def special_inputs(ctx, D, nprng):
@@ -1134,7 +1263,7 @@ def run(ctx):
         "Eckart-Young optimality, accuracy of LAPACK / iterative / randomised drivers, batched SVD: oracle stream at "
         "tolerance (tests), not theorems",
     ]
-    ctx.check_props(["C05/Model.vo", "C05/Proofs.vo", "C05/Trim.vo", "C05/Tables.vo", "C05/Optimal.vo", "C05/Historic.vo", "C05/Props.v"])
+    ctx.check_props(["C05/Model.vo", "C05/Proofs.vo", "C05/Trim.vo", "C05/Tables.vo", "C05/Optimal.vo", "C05/Eig.vo", "C05/Historic.vo", "C05/Props.v"])
     import time
 
     import os
